@@ -14,10 +14,10 @@ import (
 
 type stubFn func(s *State, args []Value) Value
 
-var stubs map[string]stubFn
+var stubs = map[string]stubFn{}
 
 func init() {
-	stubs = map[string]stubFn{
+	for k, v := range map[string]stubFn{
 		"(*sync.Mutex).Lock":                       stubMutexLock,
 		"(*sync.Mutex).Unlock":                     stubMutexUnlock,
 		"(*sync.Pool).Get":                         stubPoolGet,
@@ -44,6 +44,8 @@ func init() {
 		"sort.Strings":                             stubStringSliceSort,
 		"strings.HasPrefix":                        stubHasPrefix,
 		"strings.Contains":                         stubContains,
+	} {
+		stubs[k] = v
 	}
 }
 
